@@ -75,7 +75,9 @@ class C17(Prop):
             "sample of sites, for each member of the class a fresh index receives its first page (the site prefix itself, or a page just "
             "below it) through each write entry point (add_page, add_pages, add_links, index_batch_crawl), once via the default rule "
             "and once via an anchored rule: the reported prefix sets must be the same whichever member was seen first, and every "
-            "reported prefix must really carry the reported id afterwards. non-trivial = >= 2 "
+            "reported prefix must really carry the reported id afterwards; and with each member in turn already taken by an "
+            "explicit webentity and a webentity then created from a page under another member, every expand_prefix on that index and a "
+            "first page on a fresh index of the same process still yield the whole class (the expansion depends on the prefix alone). non-trivial = >= 2 "
             "host stems or a path body containing 's:http'.")
     QUICK = (0, 0)
     THOROUGH = (0, 0)
@@ -204,7 +206,52 @@ class C17(Prop):
                         elif sets != seen[1]:
                             self._fail(ctx, case, "class-on-index", "site %r (%s, %s): first page under %r creates %r, first page under %r creates %r"
                                        % (site, "anchored rule" if cfg.rules else "default rule", entry(b"")[0], seen[0], seen[1], m, sets), lru, "class-on-index")
+        self.check_after_taken(ctx, case, lru, site, members)
         return True
+
+    def check_after_taken(self, ctx, case, lru, site, members):
+        """the expansion is a function of the prefix alone: one member of the class already belongs to a webentity, a page under
+        another member then creates a webentity from the free members; afterwards - on that index and on a fresh one in the same
+        process - expanding any member still gives the whole class, and a first page creates the whole class"""
+        if len(members) < 2:
+            return
+        cfg = Config(backend="memory", default_rule="subdomain")
+        whole = sorted(members)
+        for j, taken in enumerate(members):
+            first = members[(j + 1) % len(members)]
+            c = Case(self, ctx, cfg.copy(), None)
+            try:
+                out = c.idx.apply(("create", [taken]))
+                if out.status != "ok":
+                    self._fail(ctx, case, "index-exception", "create_webentity([%r]) on a fresh index: %r" % (taken, out.exc), lru, "class-on-index")
+                out = c.idx.apply(("page", first + b"p:first|", False))
+                if out.status != "ok":
+                    self._fail(ctx, case, "index-exception", "add_page under %r after %r was taken: %r" % (first, taken, out.exc), lru, "class-on-index")
+                got = sorted(sorted(ps) for ps in out.created.values())
+                want = [sorted(m for m in members if m != taken)]
+                # (what exactly is created next to a taken member is C06's business; here: nothing outside the free members)
+                if any(not set(ps) <= set(want[0]) for ps in got):
+                    self._fail(ctx, case, "class-on-index", "site %r: %r already belongs to a webentity, a first page under %r creates %r, the free members are %r"
+                               % (site, taken, first, got, want), lru, "class-on-index")
+                for m in members:
+                    try:
+                        e = sorted(bytes(x) for x in c.t.expand_prefix(m))
+                    except Exception as ex:
+                        e = repr(ex)
+                    if e != whole:
+                        self._fail(ctx, case, "closure", "after %r was taken and a webentity created from a page under %r, expand_prefix(%r) = %r, the class is %r"
+                                   % (taken, first, m, e, whole), lru, "class-on-index")
+            finally:
+                c.abort()
+            c = Case(self, ctx, cfg.copy(), None)
+            try:
+                out = c.idx.apply(("page", first + b"p:first|", False))
+                got = sorted(sorted(ps) for ps in out.created.values())
+                if out.status != "ok" or got != [whole]:
+                    self._fail(ctx, case, "class-on-index", "site %r: on a fresh index (after another index of this process had %r taken) a first page under %r creates %r (%r), the class is %r"
+                               % (site, taken, first, got, out.exc, whole), lru, "class-on-index")
+            finally:
+                c.abort()
 
     def extra_checks(self, ctx, tier, seed, shard, nshards):
         n_hyp = 400 if tier == "quick" else 6000
